@@ -11,7 +11,6 @@ import (
 	"errors"
 	"fmt"
 	"math"
-	"os"
 	"slices"
 	"strconv"
 	"strings"
@@ -431,7 +430,7 @@ Level:
 		switch trimmed {
 		case "help":
 			osenv.Logf("TODO: print --info/--debug help and exit")
-			os.Exit(0)
+			return &ExitError{Code: 0}
 		case "none":
 			lev = 0
 		case "all":
@@ -1310,6 +1309,15 @@ func NewContext(opts *Options) *Context {
 }
 
 // rsync/options.c:parse_arguments
+// ExitError is returned by ParseArguments where tridge rsync prints
+// something (help, version) and exits: whether the process exits is up to
+// the caller. A daemon must not exit because a client sent --help.
+type ExitError struct {
+	Code int
+}
+
+func (e *ExitError) Error() string { return fmt.Sprintf("exit status %d", e.Code) }
+
 func (pc *Context) ParseArguments(osenv *rsyncos.Env, args []string) error {
 	// NOTE: We do not implement support for refusing options per rsyncd.conf
 	// here, as we have our own configuration file.
@@ -1366,7 +1374,7 @@ func (pc *Context) ParseArguments(osenv *rsyncos.Env, args []string) error {
 				switch opt {
 				case 'h':
 					fmt.Println(opts.DaemonHelp()) // tridge rsync prints help to stdout
-					os.Exit(0)                     // exit with code 0 for compatibility with tridge rsync
+					return &ExitError{Code: 0}     // exit with code 0 for compatibility with tridge rsync
 				case 'M':
 					return errNotYetImplemented
 
@@ -1491,10 +1499,18 @@ func (pc *Context) ParseArguments(osenv *rsyncos.Env, args []string) error {
 			return errNotYetImplemented
 
 		case OPT_INFO:
-			parseOutputWords(osenv, infoWords[:], opts.info[:], pc.poptGetOptArg(), USER_PRIORITY)
+			if err := parseOutputWords(osenv, infoWords[:], opts.info[:], pc.poptGetOptArg(), USER_PRIORITY); err != nil {
+				if _, ok := err.(*ExitError); ok {
+					return err
+				}
+			}
 
 		case OPT_DEBUG:
-			parseOutputWords(osenv, debugWords[:], opts.debug[:], pc.poptGetOptArg(), USER_PRIORITY)
+			if err := parseOutputWords(osenv, debugWords[:], opts.debug[:], pc.poptGetOptArg(), USER_PRIORITY); err != nil {
+				if _, ok := err.(*ExitError); ok {
+					return err
+				}
+			}
 
 		case OPT_USERMAP,
 			OPT_GROUPMAP,
@@ -1502,8 +1518,8 @@ func (pc *Context) ParseArguments(osenv *rsyncos.Env, args []string) error {
 			return errNotYetImplemented
 
 		case OPT_HELP:
-			fmt.Println(opts.Help()) // tridge rsync prints help to stdout
-			os.Exit(0)               // exit with code 0 for compatibility with tridge rsync
+			fmt.Println(opts.Help())   // tridge rsync prints help to stdout
+			return &ExitError{Code: 0} // exit with code 0 for compatibility with tridge rsync
 
 		case 'A':
 			return fmt.Errorf("ACLs are not supported by gokrazy/rsync")
@@ -1526,18 +1542,20 @@ func (pc *Context) ParseArguments(osenv *rsyncos.Env, args []string) error {
 
 	if version_opt_cnt > 0 {
 		fmt.Println(version.Read())
-		os.Exit(0)
+		return &ExitError{Code: 0}
 	}
 
 	if opts.human_readable > 1 && len(args) == 1 /* && !am_server */ {
-		fmt.Println(opts.Help()) // tridge rsync prints help to stdout
-		os.Exit(0)               // exit with code 0 for compatibility with tridge rsync
+		fmt.Println(opts.Help())   // tridge rsync prints help to stdout
+		return &ExitError{Code: 0} // exit with code 0 for compatibility with tridge rsync
 	}
 
 	if err := opts.setOutputVerbosity(DEFAULT_PRIORITY); err != nil {
-		// TODO: plumb error
+		if _, ok := err.(*ExitError); ok {
+			return err
+		}
 		fmt.Println(err.Error())
-		os.Exit(1)
+		return &ExitError{Code: 1}
 	}
 
 	if opts.recurse != 0 {
